@@ -458,6 +458,11 @@ class HamiltonianChain(MarkovChain):
         chain.probs = list(D["probs"])
         chain.leapfrog_steps = list(D["leapfrog_steps"])
         chain.n_parameters = int(D["n_parameters"])
+        inv_mass = array(D["inv_mass"])
+        chain.mass = get_particle_mass(
+            inverse_mass=float(inv_mass) if inv_mass.ndim == 0 else inv_mass,
+            n_parameters=chain.n_parameters,
+        )
         chain.chain_length = int(D["chain_length"])
         chain.steps = int(D["steps"])
 
